@@ -33,6 +33,10 @@ class FuncInfo:
         return any(isinstance(d, ast.Name) and d.id == 'staticmethod' for d in self.node.decorator_list)
 
     @property
+    def is_classmethod(self):
+        return any(isinstance(d, ast.Name) and d.id == 'classmethod' for d in self.node.decorator_list)
+
+    @property
     def is_property(self):
         return any(isinstance(d, ast.Name) and d.id == 'property' for d in self.node.decorator_list)
 
